@@ -5,7 +5,7 @@ PID = "C20"
 
 def run():
     t = core.tier() == "thorough"
-    return macfam.run(PID, [f"hist={40 if t else 4}", f"steps={70 if t else 45}", "profile=mixed"],
+    return macfam.run(PID, [f"hist={40 if t else 4}", f"steps={70 if t else 45}", "profile=persist"],
         'restored session differs from the original',
         "seeded random histories with a serialise/deserialise/install step after ~5% of the calls (nb: set_session of the copy); every session field is compared before/after and the rest of the history (next uplinks, verdicts on replays) is validated against the same specification state, i.e. the restored device is held to the original's future",
         macfam.COMMON_ASSUMPTIONS)
